@@ -77,3 +77,5 @@ require (
 // requirement golang.org/x/crypto v0.57.0 is not in the offline module cache;
 // every package actually built is satisfied by x/net v0.57.0.
 exclude golang.org/x/net v0.59.0
+
+require github.com/anishathalye/porcupine v1.3.0
